@@ -96,67 +96,6 @@ pub proof fn lemma_shl_bit(k: usize)
     assert(1u8 << 0usize == 1 && 1u8 << 1usize == 2 && 1u8 << 2usize == 4 && 1u8 << 3usize == 8 && 1u8 << 4usize == 16 && 1u8 << 5usize == 32 && 1u8 << 6usize == 64 && 1u8 << 7usize == 128) by (bit_vector);
 }
 
-// ---------- vhost_kern: ioctl_result / io_result
-pub enum KError { IoctlError(IoError), IOError(IoError) }
-pub type KResult<T> = core::result::Result<T, KError>;
-#[verifier::external_body]
-pub fn last_os_error() -> IoError { unimplemented!() }
-
-
-// ---------- vhost_kern/mod.rs: send_iotlb_msg (C19). The bindgen unions have ONE member used here (`iotlb`): modelled as structs.
-// Field offsets / sizes / constants of these bindings == <linux/vhost.h>: proved-by: c19_binding_layouts (Kani, real bindings)
-#[allow(non_camel_case_types)] pub type ssize_t = isize;
-#[allow(non_camel_case_types)] #[derive(Clone, Copy)]
-pub struct vhost_iotlb_msg { pub iova: u64, pub size: u64, pub uaddr: u64, pub perm: u8, pub type_: u8 }
-#[derive(Clone, Copy)] pub struct IotlbUnion { pub iotlb: vhost_iotlb_msg }
-#[allow(non_camel_case_types)] #[derive(Clone, Copy)]
-pub struct vhost_msg { pub type_: i32, pub __bindgen_anon_1: IotlbUnion }
-#[allow(non_camel_case_types)] #[derive(Clone, Copy)]
-pub struct vhost_msg_v2 { pub type_: u32, pub asid: u32, pub __bindgen_anon_1: IotlbUnion }
-pub open spec fn zero_iotlb() -> vhost_iotlb_msg { vhost_iotlb_msg { iova: 0, size: 0, uaddr: 0, perm: 0, type_: 0 } }
-// R25 targets of `T { type_: X, ..Default::default() }` (bindgen derives Default = all-zero)
-pub fn vhost_msg_with_type(t: i32) -> (r: vhost_msg) ensures r.type_ == t, r.__bindgen_anon_1.iotlb == zero_iotlb()
-{ vhost_msg { type_: t, __bindgen_anon_1: IotlbUnion { iotlb: vhost_iotlb_msg { iova: 0, size: 0, uaddr: 0, perm: 0, type_: 0 } } } }
-pub fn vhost_msg_v2_with_type(t: u32) -> (r: vhost_msg_v2) ensures r.type_ == t, r.asid == 0, r.__bindgen_anon_1.iotlb == zero_iotlb()
-{ vhost_msg_v2 { type_: t, asid: 0, __bindgen_anon_1: IotlbUnion { iotlb: vhost_iotlb_msg { iova: 0, size: 0, uaddr: 0, perm: 0, type_: 0 } } } }
-#[derive(Clone, Copy)] pub enum VhostAccess { No, ReadOnly, WriteOnly, ReadWrite }
-#[derive(Clone, Copy)] pub enum VhostIotlbType { Empty, Miss, Update, Invalidate, AccessFail, BatchBegin, BatchEnd }
-pub open spec fn access_code(a: VhostAccess) -> u8 { match a { VhostAccess::No => 0, VhostAccess::ReadOnly => 1, VhostAccess::WriteOnly => 2, VhostAccess::ReadWrite => 3 } }
-pub open spec fn iotlb_type_code(t: VhostIotlbType) -> u8 { match t { VhostIotlbType::Empty => 0, VhostIotlbType::Miss => 1, VhostIotlbType::Update => 2,
-    VhostIotlbType::Invalidate => 3, VhostIotlbType::AccessFail => 4, VhostIotlbType::BatchBegin => 5, VhostIotlbType::BatchEnd => 6 } }
-// R25 targets of `msg.perm as u8` / `msg.msg_type as u8` (discriminants == UAPI values: proved-by: c19_binding_layouts)
-pub fn access_as_u8(a: VhostAccess) -> (r: u8) ensures r == access_code(a)
-{ match a { VhostAccess::No => 0, VhostAccess::ReadOnly => 1, VhostAccess::WriteOnly => 2, VhostAccess::ReadWrite => 3 } }
-pub fn iotlb_type_as_u8(t: VhostIotlbType) -> (r: u8) ensures r == iotlb_type_code(t)
-{ match t { VhostIotlbType::Empty => 0, VhostIotlbType::Miss => 1, VhostIotlbType::Update => 2, VhostIotlbType::Invalidate => 3,
-    VhostIotlbType::AccessFail => 4, VhostIotlbType::BatchBegin => 5, VhostIotlbType::BatchEnd => 6 } }
-pub struct VhostIotlbMsg { pub iova: u64, pub size: u64, pub userspace_addr: u64, pub perm: VhostAccess, pub msg_type: VhostIotlbType }
-// what was handed to write(2): which struct, its field values, the byte count
-pub enum Written { V1(vhost_msg, usize), V2(vhost_msg_v2, usize) }
-pub struct KernDev { pub fd: i32, pub acked: u64, pub written: Ghost<Seq<Written>> }
-impl KernDev {
-    pub fn get_backend_features_acked(&self) -> (r: u64) ensures r == self.acked { self.acked }
-    pub fn as_raw_fd(&self) -> (r: i32) ensures r == self.fd { self.fd }
-}
-// R20 targets of `unsafe { write(fd, &m as *const T as *const c_void, mem::size_of::<T>()) }`: one write(2) of the object's bytes.
-// assumed: A-OS. The receiver is `&self` in the real code (the effect is on the kernel's device); R8 makes it `&mut self` so
-// that the ghost log of what was written can change
-impl KernDev {
-    #[verifier::external_body]
-    pub fn write_v1(&mut self, fd: i32, m: &vhost_msg, n: usize) -> (r: ssize_t)
-        requires fd == old(self).fd ensures final(self).written@ == old(self).written@.push(Written::V1(*m, n)), final(self).fd == old(self).fd, final(self).acked == old(self).acked
-    { unimplemented!() }
-    #[verifier::external_body]
-    pub fn write_v2(&mut self, fd: i32, m: &vhost_msg_v2, n: usize) -> (r: ssize_t)
-        requires fd == old(self).fd ensures final(self).written@ == old(self).written@.push(Written::V2(*m, n)), final(self).fd == old(self).fd, final(self).acked == old(self).acked
-    { unimplemented!() }
-}
-pub fn size_of_vhost_msg() -> (r: usize) ensures r == 72 { 72 }       // proved-by: c19_binding_layouts (SZ_vhost_msg)
-pub fn size_of_vhost_msg_v2() -> (r: usize) ensures r == 72 { 72 }    // proved-by: c19_binding_layouts (SZ_vhost_msg_v2)
-pub open spec fn iotlb_of(m: VhostIotlbMsg) -> vhost_iotlb_msg {
-    vhost_iotlb_msg { iova: m.iova, size: m.size, uaddr: m.userspace_addr, perm: access_code(m.perm), type_: iotlb_type_code(m.msg_type) }
-}
-
 // ---------- handler.rs: memory-table updates (ADD_MEM_REG / REM_MEM_REG). vm-memory is modelled by its documented effect on a
 // ghost view of the region table (assumed: A-VMM); the backend is told through update_memory.
 // `logged`: the region's bitmap has an inner log installed (dirty pages are recorded)
